@@ -86,6 +86,38 @@ def api_builds(ctx, nconf):
     return fails
 
 
+def direct_low_vs_high(ctx, cases):
+    """the property itself on direct nn_descent calls: the other memory mode must give the identical graph
+    (includes delta = 0 and small integer thresholds, where the stopping test ties)"""
+    m = nnd_corr.impl()
+    numba, pn = m["numba"], m["pn"]
+    orig = numba.get_num_threads()
+    differ = 0
+    done = 0
+    try:
+        for cs in cases:
+            if "impl_graph" not in cs:
+                continue
+            numba.set_num_threads(cs["T"])
+            rs = np.array(cs["st"], dtype=np.int64)
+            gi2, gd2 = pn.nn_descent(cs["data"], cs["k"], rs, cs["maxc"], cs["dist"], cs["iters"], cs["delta"],
+                                     low_memory=not cs["low"], rp_tree_init=True, leaf_array=cs["leaves"], verbose=False)
+            gi, gd = cs["impl_graph"]
+            done += 1
+            if not (np.array_equal(gi, gi2) and np.array_equal(gd.view(np.uint32), gd2.view(np.uint32))):
+                differ += 1
+                if differ <= 2:
+                    ctx.violation("direct-low-vs-high",
+                                  "nn_descent(low_memory=True) and (low_memory=False) return different graphs on identical inputs",
+                                  dict(data=cs["data"].tolist(), metric=cs["metric"], n_neighbors=cs["k"], rng_state=cs["st"],
+                                       max_candidates=cs["maxc"], n_iters=cs["iters"], delta=cs["delta"], threads=cs["T"],
+                                       leaf_array=cs["leaves"].tolist(), rows_differing=np.nonzero((gi != gi2).any(axis=1))[0][:10].tolist()), True)
+    finally:
+        numba.set_num_threads(orig)
+    ctx.count(done)
+    ctx.stream("direct-low-vs-high", pairs=done, differing=differ)
+
+
 def run(ctx):
     ctx.trusted = [
         "Coq 8.16.1 kernel; vm_compute for the refutation witness and Examples",
@@ -127,11 +159,12 @@ def run(ctx):
         for v in ctx.violations:
             if v["key"] == "applyhigh-corr":
                 v["explained_by"] = "kernel-low-vs-high"
-    cases, bad = nnd_corr.corr_nnd_direct(ctx, ctx.budget(30, 300), variant_q)
+    cases, bad = nnd_corr.corr_nnd_direct(ctx, ctx.budget(60, 400), variant_q)
     for (cs, mo, im, ln) in bad[:3]:
         ctx.violation("nnd-corr", "correspondence stream nn_descent(direct) disagrees with model/NND.v",
                       dict(params={k: cs[k] for k in ("n", "k", "metric", "maxc", "iters", "delta", "T", "low", "kind")},
                            case_line=ln[:2000], model=mo[:1000], implementation=im[:1000]), False)
+    direct_low_vs_high(ctx, cases)
     api_builds(ctx, ctx.budget(14, 120))
     if not changed and unknown:
         common.update_sentinels(cur)
